@@ -25,6 +25,11 @@ CHECKS = {
     text="TLC checks on every digraph with 3 (quick) / 4 (thorough) nodes incl. self loops, in ascending and descending neighbour order, that the model of toposort_impl yields a permutation and a linear extension of acyclic graphs, and that the model of sort_by_indices realises every index permutation up to 5 / 7. The same inputs are executed on the real toposort_impl and sort_by_indices (hook) and the results judged by TLC. Every two-item program A->B with the reference written in every carrier (field, newtype variant, struct-variant field, alias, const) x container (direct, Vec, Option, map key/value, array, slice, generic argument, unknown generic, nested generic) x B renamed? x kind of B is generated for TypeScript, Kotlin, Swift, Go and Python; the line of each definition is read back and TLC checks 'each item exactly once, and complete before anything that uses it starts'. Random programs of 3..12 items (DAG and cyclic) extend this beyond the enumerated space.",
     note="Trusted: TLC; extractors for definition positions; an item's group = main definition + helper structs of its struct variants. Known finding: references to serde-renamed types are invisible to the ordering (snapshot-pinned). Fixed: 1dc1d80.",
     design_ref="6/C11"),
+ "C07": dict(
+    technique="TLA+ model of the walker/channel/collector/main protocol (Pipeline.tla) model-checked with fairness over all schedules; TLC counter-example schedules replayed on the real binary through gate hooks; edge-of-grammar inputs enumerated by TLC (MC_C07) and run under a watchdog; every run's event log trace-validated against the model with the layer-P invariants evaluated at each step (Trace_Pipeline.tla)",
+    text="TLC explores every interleaving of 3 files x 2 walker threads x channel capacity 1 for every assignment of parse results (none/ok/item-errors/Err/panic) and checks termination (under weak fairness), no-panic exit, exit-code/diagnostic consistency and 'a clean tree succeeds'. A reachability query yields the schedule 'a result is sent after the collector has gone'; it is projected to gate points and forced on the real binary (this is how the SendError panic, fixed in e0dfe05, was reproduced), and the run's own event log is validated against the model. 38 edge constructs x 6 languages x single/multi-file (x 4 companion-file sets in thorough) run on the real binary under a 10 s watchdog; outcome must be exit 0 with output or exit != 0 with a diagnostic naming the file. A corpus of random supported programs (all item kinds, recursion, generics, renames, overrides; 300 quick / 3000 thorough x 6 languages) runs through the library under catch_unwind with abort isolation.",
+    note="Trusted: TLC; the hooks' event placement (binding demonstrated by rejecting corrupted/dropped events); a run alive after 10 s is a hang. Model-level finding kept in evidence: a panic inside a walker thread would hang the process (needs an input that panics; none is known after fixes 47370c3, cdfed7c, 284909f, 436a798). Known findings: const in Kotlin/Swift (todo!()), empty tree in single-file mode, generation-time errors do not name the file.",
+    design_ref="6/C07"),
 }
 
 NOT_YET = "not built yet in this round (planned: see DESIGN.md section 6); no check is registered, nothing is claimed"
@@ -61,7 +66,7 @@ def main():
              "kind_free_text": "explicit TLA+ specifications (spec/*.tla) checked with TLC; TLC-enumerated cases replayed into the real typeshare code (harness/driver, hooked CLI) and recorded executions validated against the specifications by TLC"},
         ],
         "checks": checks,
-        "notes": "Fix commits in /repo: d7ce7e9 (C16), 1dc1d80 (C11). Known findings: /verif/known_findings.jsonl. DESIGN.md describes layers P (judge), M (implementation models, predictions only) and B (binding).",
+        "notes": "Fix commits in /repo: d7ce7e9 (C16), 1dc1d80 (C11), 47370c3 cdfed7c 284909f 436a798 e0dfe05 (C07). Known findings: /verif/known_findings.jsonl. DESIGN.md describes layers P (judge), M (implementation models, predictions only) and B (binding).",
         "not_applicable": [{"property_id": p, "reason": NA.get(p, NOT_YET)} for p in ALL if p not in CHECKS],
     }
     json.dump(m, open(os.path.join(ROOT, "MANIFEST.json"), "w"), indent=1)
